@@ -1,8 +1,9 @@
 """C05 -- failures are contained and never recorded as success.
 Part 1: shared run-family correspondence + oracle_c05 (harness/runfam.py).
 Part 2: the real Dependency on every backend: a task that succeeded before and then fails in any way
-(return False, exception, TaskFailed/TaskError object, file_dep vanishing during execution, file_dep
-missing before execution) must execute again on the next run, with and without reopening the DB."""
+(return False, exception, TaskFailed/TaskError object, a command action that exits with a non-zero status,
+with a status above 125, or is killed by a signal -- the command itself or the shell that runs it --,
+file_dep vanishing during execution, file_dep missing before execution) must be reported as failed and execute again on the next run, with and without reopening the DB."""
 import os, sys
 import runfam
 
@@ -15,7 +16,11 @@ def part_real_db(ctx, out):
     from doit.exceptions import TaskFailed, TaskError
     import runlib
     n = 0
-    kinds = ['false', 'raise', 'taskfailed', 'taskerror', 'dep-vanishes', 'dep-missing-before']
+    kinds = ['false', 'raise', 'taskfailed', 'taskerror', 'dep-vanishes', 'dep-missing-before',
+             'cmd-exit1', 'cmd-exit200', 'cmd-killed', 'cmd-shell-killed', 'cmd-list-exit3']
+    CMDS = {'cmd-exit1': 'exit 1', 'cmd-exit200': 'exit 200', 'cmd-shell-killed': 'kill -SEGV $$',
+            'cmd-killed': [sys.executable, '-c', 'import os, signal; os.kill(os.getpid(), signal.SIGKILL)'],
+            'cmd-list-exit3': [sys.executable, '-c', 'import sys; sys.exit(3)']}
     for backend in (JsonDB, DbmDB, SqliteDB):
         for checker in (MD5Checker, TimestampChecker):
             for kind in kinds:
@@ -36,7 +41,7 @@ def part_real_db(ctx, out):
                         return True
 
                     def one_run():
-                        t = Task('t', [act], file_dep=[dep_file])
+                        t = Task('t', [act] + ([CMDS[mode['v']]] if mode['v'] in CMDS else []), file_dep=[dep_file])
                         tc = TaskControl([t]); tc.process(None)
                         dm = Dependency(backend, db, checker_cls=checker)
                         log = []
@@ -70,7 +75,11 @@ def part_real_db(ctx, out):
                     out.evaluations += 1
                     out.nontrivial.add(('realdb', backend.__name__, checker.__name__, kind, runner_cls.__name__))
                     failed2 = any(e[0] == 4 for e in log2)
-                    if rc1 != 0 or not failed2:
+                    if rc1 == 0 and not failed2 and kind in CMDS:
+                        out.violations.append(dict(
+                            what='the command action of the task ended abnormally (%s: %r) but the task was not reported as failed: run 2 rc=%s (%s, %s, %s)' % (kind, CMDS[kind], rc2, backend.__name__, checker.__name__, runner_cls.__name__),
+                            shape='c05:abnormal-command-end-not-a-failure', case=dict(backend=backend.__name__, checker=checker.__name__, kind=kind, runner=runner_cls.__name__, run2=log2)))
+                    elif rc1 != 0 or not failed2:
                         out.violations.append(dict(what='harness expectation broken: run1 rc=%s, run2 failure reported=%s (%s/%s/%s)' % (rc1, failed2, backend.__name__, checker.__name__, kind),
                                                    shape='c05:realdb-setup', case=dict(backend=backend.__name__, kind=kind)))
                     elif len(execs) == before:
